@@ -100,6 +100,10 @@ def _loop (ctx, repo, f, L):
   ctx.floor('%s: decode site' % f.name, len(L.decode), 1); ctx.floor('%s: delivery site' % f.name, len(L.deliver), 1)
   for n, c in L.decode + L.deliver:
     good = framing.avail_ge_wlen(L, n)
+    if not good:        # dominance cannot see flags that are correlated with the length test: enumerate the feasible paths
+      good, bad_path = framing.avail_ge_wlen_paths(repo, f, L, n)
+      if good is None:
+        ctx.undecided('R-DOM', f, "`%s` only when the whole message has arrived" % n.text(50), "no dominating length test, and the paths from the loop head could not be enumerated", (mod, n.ast), 'D3'); continue
     ctx.ob('R-DOM', f, "`%s` only when the whole message has arrived" % n.text(50), good,
            "dominated by available >= %s" % L.wlen if good else "not dominated by a test that the available bytes cover the declared length %s: an incomplete trailing message is decoded/delivered early (facts %s)" % (L.wlen, q.fact_strs(g, n)),
            (mod, n.ast), 'D3')
@@ -125,6 +129,18 @@ def _loop (ctx, repo, f, L):
   for n, kind, v in adv_nodes:
     if kind == 'consume':
       good = v is not None and norm(v) == L.wlen
+      if not good and isinstance(v, ast.Name):
+        # a local that carries the declared length to a shared tail (`skip = message_length` ... `consume(skip)`): every definition
+        # that reaches the call is the wire length, or the None that a dominating `is not None` test excludes
+        try:
+          IN_, defn_ = q.reaching_defs(g, v.id)
+          ds_ = [defn_[d_] for d_ in IN_[n] if d_ is not g.entry]
+          fs_ = q.fact_strs(g, n)
+          none_excluded = ('%s is not None' % v.id) in fs_
+          if ds_ and len(ds_) == len(IN_[n]) and all((kind_ == 'assign' and val_ is not None and not isinstance(val_, tuple) and (norm(val_) == L.wlen or (none_excluded and isinstance(val_, ast.Constant) and val_.value is None))) for tt_, val_, kind_ in ds_) \
+             and any(norm(val_) == L.wlen for tt_, val_, kind_ in ds_ if val_ is not None and not isinstance(val_, tuple)):
+            good = True
+        except Exception: pass
       ctx.ob('R-AGREE', f, "`%s` consumes exactly the declared length" % n.text(50), good, "consume(%s)" % L.wlen if good else
              "the cursor advances by `%s`, not by the wire length %s: bytes of the next message are dropped or a message is delivered twice" % (norm(v), L.wlen), (mod, n.ast), 'D4')
     else:
@@ -146,10 +162,17 @@ def _loop (ctx, repo, f, L):
     if not good and iv is not None:
       # path-sensitive recount: the markers an inlined helper leaves behind (`ok = False ... if not ok: break`) correlate branches
       advn = [a[0] for a in L.advance]
-      ps_ = q.paths_under(repo, mod, g, q.Env(), n, [L.head], f.cls, limit=300, track_start=True)
-      if ps_ and len(ps_) < 300:
-        cnts = set(sum(1 for x_ in p_ if x_ in advn) for p_, e_ in ps_)
-        if cnts == {1}: good = True; iv = (1, 1)
+      for env0_ in (q.Env(), q.Env({L.wlen: 12} if L.wlen else {})):      # second try: the declared length as a sample value (a local that carries it is then known not to be None)
+        ps_ = q.paths_under(repo, mod, g, env0_, n, [L.head], f.cls, limit=300, track_start=True)
+        if ps_ and len(ps_) < 300:
+          cnts = set(sum(1 for x_ in p_ if x_ in advn) for p_, e_ in ps_)
+          if cnts == {1}: good = True; iv = (1, 1); break
+        # flags set at the top of the iteration (`problem = None`) are only known on paths that start at the loop head
+        ps_ = q.paths_under(repo, mod, g, env0_, L.head, [L.head, L.after, g.exit, g.raise_exit], f.cls, limit=600)
+        if ps_ and len(ps_) < 600:
+          thru = [p_ for p_, e_ in ps_ if n in p_ and p_[-1] is L.head]
+          cnts = set(sum(1 for x_ in p_[p_.index(n):] if x_ in advn) for p_ in thru)
+          if thru and cnts == {1}: good = True; iv = (1, 1); break
     ctx.ob('R-EFFECT', f, "after a decode the loop continues only with the cursor advanced once", good, "advance count on paths back to the loop head: %s" % (iv,),
            (mod, c), 'D4') if iv is not None else ctx.undecided('R-EFFECT', f, "advance per iteration", "loop head not reachable from decode", (mod, c), 'D4')
     # ... also when the delivery raises and a handler inside the loop carries on: the message that was handed over is not handed over again
